@@ -339,11 +339,93 @@ def build(active_known=frozenset()):
     c.modifies()
     c.ensures("the arguments are passed on as they are", lambda a: a.result == z3.Select(a.pre.st.field_array("_args"), V.Val.a(a.self)))
 
+    add_dispatch_generator(pack)
     for c in pack.contracts:
         if c.replay_ is None:
             c.replay(lambda m, ctx, ob: CALLS_REPLAY)
             c.replay_without_model = True
     return pack
+
+
+def add_dispatch_generator(pack):
+    """The one number that ties the *generated* dispatcher to the run-time machinery proved above: ``apply_to`` takes
+    ``max_fixed_arity`` leading arguments off the argument sequence before wrapping the rest, so the ``_basilisp_fn``
+    decorator emitted for a multi-arity function has to carry exactly the analyzer's ``max_fixed_arity`` (which counts the
+    fixed parameters of the variadic arity as well), and the dispatcher's "more arguments than any fixed arity" test has to
+    compare against the same number.  Verified on one representative shape of the arity map (arities 1 and 3 plus a
+    variadic arity); the number itself is symbolic."""
+    import ast as _ast
+
+    from basilisp.lang.compiler import generator as gen
+
+    MFA = z3.Const("arg.max_fixed_arity", V.Val)
+    RFA = z3.Const("arg.rest_arity_fixed_arity", V.Val)
+    fn_decorator = gen.__dict__["__fn_decorator"]
+
+    def dsetup(eng, st):
+        for c_ in (_ast.Call, _ast.keyword, _ast.Constant, _ast.Name, _ast.Compare, _ast.If, _ast.FunctionDef, gen.GeneratedPyAST, gen.GeneratorContext):
+            eng.class_id(c_)
+
+        def deco(e, s, a, k):
+            s.ghost["decorator_calls"] = list(s.ghost.get("decorator_calls", [])) + [dict((n, e.lift(v, s)) for n, v in k.items())]
+            yield s, SV(V.fresh_val("decorator_call_node"))
+
+        eng.models[id(fn_decorator)] = Model("__fn_decorator (contract below)", deco)
+        eng.models[id(gen.gen_py_ast)] = Model("gen_py_ast (opaque)", lambda e, s, a, k: iter([(s, SV(V.fresh_val("generated")))]))
+
+        def native(fn):
+            # helpers called with concrete arguments only (name generation, dotted-name loading): run as they are
+            def model(e, s, a, k):
+                if not e.all_concrete(a, k):
+                    raise Unsupported(f"{fn.__name__} with symbolic arguments")
+                yield s, fn(*a, **k)
+
+            return Model(f"{fn.__name__} (run natively on concrete arguments)", model)
+
+        for fn in (gen.genname, gen._load_attr):
+            eng.models[id(fn)] = native(fn)
+
+    c = pack.contract("basilisp.lang.compiler.generator:__multi_arity_dispatch_fn")
+    c.label = "arities 1 and 3 plus a variadic arity"
+    c.param("ctx", OBJ(gen.GeneratorContext))
+    c.param_value("name", lambda eng, st: "f")
+    c.param_value("arity_map", lambda eng, st: {1: "f_arity1", 3: "f_arity3"})
+    c.param_value("return_tags", lambda eng, st: (None, None, None))
+    c.param_value("default_name", lambda eng, st: "f_rest")
+    c.param_value("rest_arity_fixed_arity", lambda eng, st: SV(RFA))
+    c.param_value("max_fixed_arity", lambda eng, st: SV(MFA))
+    c.param_value("meta_node", lambda eng, st: None)
+    c.param_value("is_async", lambda eng, st: False)
+    c.setup(dsetup)
+    c.requires("the arities are integers", lambda a: z3.And(V.is_int(MFA), V.is_int(RFA)))
+    c.raises()
+
+    def disp_post(a):
+        calls = a.post.st.ghost.get("decorator_calls", [])
+        if len(calls) != 1 or "max_fixed_arity" not in calls[0]:
+            return z3.BoolVal(False)
+        return calls[0]["max_fixed_arity"] == MFA
+
+    c.ensures("the _basilisp_fn decorator of the dispatcher is given exactly the max_fixed_arity handed to the generator (the analyzer's count, which includes the fixed "
+              "parameters of the variadic arity): the number apply_to peels off the argument sequence", disp_post)
+
+    c = pack.contract("basilisp.lang.compiler.generator:__fn_decorator")
+    c.param_value("arities", lambda eng, st: [1, 3])
+    c.param_value("has_rest_arg", lambda eng, st: True)
+    c.param_value("max_fixed_arity", lambda eng, st: SV(MFA))
+    c.setup(dsetup)
+    c.requires("an integer", lambda a: V.is_int(MFA))
+    c.raises()
+
+    def deco_post(a):
+        st = a.post.st
+        fld_ = lambda o, f: z3.Select(st.field_array(f), V.Val.a(o))  # noqa: E731
+        kws = z3.Select(st.lists, V.Val.a(fld_(a.result, "keywords")))
+        k1 = kws[1]
+        return z3.And(z3.Length(kws) == 2, fld_(kws[0], "arg") == V.mk_str("arities"), fld_(k1, "arg") == V.mk_str("max_fixed_arity"),
+                      V.is_ref(fld_(k1, "value")), V.cls_of(V.Val.a(fld_(k1, "value"))) == a.eng.class_id(_ast.Constant), fld_(fld_(k1, "value"), "value") == MFA)
+
+    c.ensures("the emitted call is _basilisp_fn(arities=..., max_fixed_arity=<that number>)", deco_post)
 
 
 CALLS_REPLAY = r'''
@@ -356,6 +438,7 @@ src = """(ns c08.replay)
 (defn f2only [a b & more] [:f2only a b (nil? more)])
 (defn f4only [a b c d & more] [:f4only a b c d])
 (defn g ([a] [:g1 a]) ([a b] [:g2 a b]) ([a b & more] [:gv a b (vec more)]))
+(defn h3 ([a] [:one a]) ([a b c & r] [:rest a b c r]))
 (defn rr [x & more] (if (< x 3) (recur (inc x) more) [:rr x more]))
 (defn rr0 [& more] (if (seq more) (recur (next more)) [:rr0 more]))
 ;; (each step is its own top-level form, so that the order of effects does not depend on how call arguments are compiled)
@@ -381,7 +464,8 @@ src = """(ns c08.replay)
   (apply f2only 1 [2])
   (apply g [1]) (apply g 1 [2]) (apply g 1 2 [3 4]) (apply g [1 2 3])
   ((partial g 1) 2) ((partial g 1 2) 3 4) ((partial vector 1 2) 3 4) ((partial f2 1) 2 3)
-  (rr 0) (rr 0 :a :b) (rr0 1 2 3))
+  (rr 0) (rr 0 :a :b) (rr0 1 2 3)
+  (apply h3 [1 2 3]) (apply h3 1 2 [3 4 5]) (apply h3 [7]) (h3 1 2 3 4))
 """
 with tempfile.NamedTemporaryFile("w", suffix=".lpy", delete=False) as fh:
     fh.write(src)
@@ -391,7 +475,7 @@ finally:
     os.unlink(fh.name)
 line = [l for l in out.stdout.splitlines() if l.startswith("RESULT")]
 got = line[0] if line else "no output: " + out.stderr[-400:]
-want = "RESULT [:f0 0 1] true [:f2 0 1 2] true [:f2 10 0 1] true true true [:f2 10 20 30] [:f2only 1 2 true] [:f2only 1 2 true] [:g1 1] [:g2 1 2] [:gv 1 2 [3 4]] [:gv 1 2 [3]] [:g2 1 2] [:gv 1 2 [3 4]] [1 2 3 4] [:f2 1 2 3] [:rr 3 nil] [:rr 3 (:a :b)] [:rr0 nil]"
+want = "RESULT [:f0 0 1] true [:f2 0 1 2] true [:f2 10 0 1] true true true [:f2 10 20 30] [:f2only 1 2 true] [:f2only 1 2 true] [:g1 1] [:g2 1 2] [:gv 1 2 [3 4]] [:gv 1 2 [3]] [:g2 1 2] [:gv 1 2 [3 4]] [1 2 3 4] [:f2 1 2 3] [:rr 3 nil] [:rr 3 (:a :b)] [:rr0 nil] [:rest 1 2 3 nil] [:rest 1 2 3 (4 5)] [:one 7] [:rest 1 2 3 (4)]"
 print("got     ", got)
 print("expected", want)
 print("REPRODUCED" if got != want else "not reproduced")
